@@ -106,6 +106,8 @@ func C14(ctx *Ctx) {
 		R.Count("render-cells", len(cells))
 		pure, length, order, branch, regs := aggMap{}, aggMap{}, aggMap{}, aggMap{}, aggMap{}
 		nFlagRender, nColumn := 0, 0
+		var colsByCell []map[string]bool
+		var cellOf []CPUCell
 		for _, o := range outs {
 			r := o.r
 			c := r.Cell
@@ -186,11 +188,15 @@ func C14(ctx *Ctx) {
 			// register columns: a value rendered right after a label "<L>=" (xbuf.S / a format string) where
 			// the CPU has a register field R<L> must be that register (its copies R<L>, R<L>l, R<L>h)
 			pendingLabel := ""
+			cellCols := map[string]bool{}
+			colsByCell = append(colsByCell, cellCols)
+			cellOf = append(cellOf, c)
 			checkColumn := func(label string, v absint.Val, e RenderEvent) {
 				iv, ok := v.(*absint.Int)
 				if !ok || label == "" {
 					return
 				}
+				cellCols["column "+label+"="] = true
 				var deps []string
 				for _, d := range absint.LinDeps(iv.Lin) {
 					if strings.HasPrefix(d.Key, "cpu.") {
@@ -268,8 +274,18 @@ func C14(ctx *Ctx) {
 									}
 								}
 							}
+							// the width flags are fixed in a cell: their letter is rendered without a test when set
+							if flag == "" && !isModeRenderer(e.Caller) {
+								if ch == 'M' && c.M == 1 {
+									cellCols["width flag M"] = true
+								}
+								if ch == 'X' && c.X == 1 {
+									cellCols["width flag X"] = true
+								}
+							}
 							if len(flag) == 1 && strings.Contains("NVMXDIZCEB", flag) {
 								nFlagRender++
+								cellCols["flag "+flag] = true
 								if flag != string(rune(ch)) {
 									regs.add(fmt.Sprintf("%s:flag-letter-%s", rs, flag), c.Opcode, ctx.Prog.Pos(e.Pos), fmt.Sprintf("cell %s: under a test of flag %s the letter %q is rendered", c, flag, rune(ch)))
 								}
@@ -385,6 +401,49 @@ func C14(ctx *Ctx) {
 			}
 			if tgtBad != "" {
 				branch.add(fmt.Sprintf("%s:%s", rs, ref.Mode), c.Opcode, pos, tgtBad)
+			}
+		}
+		// completeness: a register column or flag shown for some width setting is shown for every one
+		allCols := map[string]bool{}
+		for _, cc := range colsByCell {
+			for k := range cc {
+				allCols[k] = true
+			}
+		}
+		// a renderer that shows flags shows the eight bits of the status register, one that shows registers
+		// shows at least the accumulator and the two index registers (what every instruction may read)
+		anyFlag, anyCol := false, false
+		for k := range allCols {
+			anyFlag = anyFlag || strings.HasPrefix(k, "flag ")
+			anyCol = anyCol || strings.HasPrefix(k, "column ")
+		}
+		if anyFlag {
+			for _, f := range "NVDIZC" {
+				allCols["flag "+string(f)] = true
+			}
+		}
+		if anyCol {
+			for _, l := range []string{"A", "X", "Y"} {
+				allCols["column "+l+"="] = true
+			}
+		}
+		for i, cc := range colsByCell {
+			// the width flags are constants of the cell: when set, their letter must appear among the flags
+			if anyFlag {
+				if cellOf[i].M == 1 && !cc["width flag M"] {
+					regs.add(rs+":missing:flag M", cellOf[i].Opcode, pos, fmt.Sprintf("cell %s: M is set but no letter M is rendered", cellOf[i]))
+				}
+				if cellOf[i].X == 1 && !cc["width flag X"] {
+					regs.add(rs+":missing:flag X", cellOf[i].Opcode, pos, fmt.Sprintf("cell %s: X is set but no letter X is rendered", cellOf[i]))
+				}
+			}
+			for k := range allCols {
+				if strings.HasPrefix(k, "width flag ") {
+					continue
+				}
+				if !cc[k] {
+					regs.add(fmt.Sprintf("%s:missing:%s", rs, k), cellOf[i].Opcode, pos, fmt.Sprintf("cell %s: the %s is not rendered (it is in other cells): the line does not show that value", cellOf[i], k))
+				}
 			}
 		}
 		emitAgg(R, "pure", pure, rs+":cells", "2048 cells: no CPU field changes, no bus write")
